@@ -94,6 +94,7 @@ func runC03(c *core.Ctx) {
 	x.runK15()
 	x.runK16()
 	x.runK17()
+	x.runK19()
 	c.Note("reachable repository functions: %d (load set %d, run set %d incl. dependencies)", len(x.fns), len(x.load), len(x.run))
 }
 
